@@ -73,17 +73,23 @@ def dataset (j : Json) : R Json := do
     let rdm : Json := match ds.condVec with
       | .vec cv => ofList ofFloat (rdmByCondition ds.nObs ds.nCh cv (ofLists rows))
       | .design _ => Json.null
+    -- one pattern per observation (calc_rdm by a row-number descriptor)
+    let rdmRows : Json := match ds.condVec with
+      | .vec _ => Json.null
+      | .design _ => ofList ofFloat (rdmByCondition ds.nObs ds.nCh (List.range ds.nObs) (ofLists rows))
     let condEcho : Json := match ds.condVec with
       | .vec cv => ofList ofNat cv
       | .design z => ofMatF z
-    obj [("data", ofMatF rows), ("rdm", rdm), ("cond_vec", condEcho),
+    obj [("data", ofMatF rows), ("rdm", rdm), ("rdm_rows", rdmRows), ("cond_vec", condEcho),
          ("signal", ofFloat ds.signal), ("noise", ofFloat ds.noise),
          ("model", Json.str ds.modelName), ("theta", ofOpt (ofList ofFloat) ds.theta),
          ("n_obs", ofNat ds.nObs), ("n_ch", ofNat ds.nCh)])
   let plan := (drawPlan same nSim).map (fun d => Json.arr #[Json.bool d.1, ofNat d.2])
   pure (obj [("datasets", Json.arr outs.toArray), ("plan", Json.arr plan.toArray),
              ("n_signal_calls", ofNat (nSignalCalls same nSim)),
-             ("n_cols", ofNat cond.nCols), ("gen_width", ofNat (genWidth nCond nCh))])
+             ("n_cols", ofNat cond.nCols), ("gen_width", ofNat (genWidth nCond nCh)),
+             ("noise_shape", ofList ofNat [(noiseDrawShape cond.nObs nCh).1, (noiseDrawShape cond.nObs nCh).2]),
+             ("signal_shape", ofList ofNat [(signalDrawShape nCond nCh).1, (signalDrawShape nCond nCh).2])])
 
 /-- the model's own exact signal (own Cholesky and Gram–Schmidt instances of the two factor
     contracts), the contract residuals, and the whole loop to the RDM by condition -/
@@ -98,11 +104,11 @@ def own (j : Json) : R Json := do
   let gl := toLists nCond nCond (gramOfRdm nCond (squareform nCond v))
   let g : Mat Float := ofLists gl
   let tol : Float := 1e-9 * (maxAbs gl + 1e-300)
-  let cl := toLists nCond nCond (cholPSD nCond g tol)
+  let cl := toLists nCond nCond (cholPiv nCond g tol)
   let c : Mat Float := ofLists cl
   let residC := maxAbs (toLists nCond nCond (fun a b => gramRows nCond c a b - g a b))
   let u0 := ofLists (toLists nCond w (rowCenter w (ofLists z)))
-  let wl := gramSchmidtRows nCond w u0
+  let wl := gramSchmidtCompleteRows nCond w u0 1e-20
   let wm : Mat Float := ofLists wl
   let residW := maxAbs (toLists nCond nCond
     (fun a b => gramRows w wm a b - (if a = b then (w : Float) else 0)))
@@ -133,6 +139,19 @@ def signal (j : Json) : R Json := do
   pure (obj [("signal", ofMatF (toLists nCond nCh s)), ("gen_width", ofNat w),
              ("clamped", ofList ofFloat (eigval.map Rsa.Gen.C18.eigClamp))])
 
+/-- specification of the RDM between the observations of a general design matrix:
+    `signal · (z_o − z_o')ᵀ G (z_o − z_o')` with `G` from the model RDM vector (and the `D` form) -/
+def rowspec (j : Json) : R Json := do
+  let nCond ← fld j "n_cond" >>= asNat
+  let v ← fld j "rdm" >>= asList asFloat
+  let z ← fld j "design" >>= asMatF
+  let signal ← fld j "signal" >>= asFloat
+  let nObs := z.length
+  let d : Mat Float := squareform nCond v
+  let g : Mat Float := ofLists (toLists nCond nCond (gramOfRdm nCond d))
+  pure (obj [("spec", ofList ofFloat (Rsa.matToVec nObs (designRdmSpec nCond (ofLists z) g signal))),
+             ("spec_d", ofList ofFloat (Rsa.matToVec nObs (designRdmSpecD nCond (ofLists z) d signal)))])
+
 def asShape (j : Json) : R (Option (Nat × Nat)) := do
   match ← asOpt (asList asNat) j with
   | some [a, b] => pure (some (a, b))
@@ -155,6 +174,7 @@ def handle : Handler := fun op j =>
   | "c18.dataset" => some (dataset j)
   | "c18.own" => some (own j)
   | "c18.signal" => some (signal j)
+  | "c18.rowspec" => some (rowspec j)
   | "c18.validate" => some (validate j)
   | _ => none
 
